@@ -349,6 +349,41 @@ def operateArgs [BEq α] (t : Sigs α) (kern : KSrc α) : OpNames → Except Err
       | .error e => .error e
       | .ok (k', t') => .ok (k', none, t')
 
+/-- `af.startswith("#")`: the temporary features of an algebraic expression -/
+def isTemp (n : String) : Bool := n.toList.head? == some '#'
+
+/-- `track.removeAnalyticalFeature(name)` -/
+def removeSig (t : Sigs α) (name : String) : Sigs α := t.filter (fun p => !(p.1 == name))
+
+/-- the assignment `out = src` of `Track.__applyOperation` when `src` is a feature of the track: a coordinate is
+overwritten (`setXFromAnalyticalFeature`, then a temporary source is removed), an existing feature is removed and
+created again (it becomes the last one), a new name is created -/
+def assignAF (t : Sigs α) (out src : String) (s : List (Option α)) : Sigs α :=
+  if out == "x" ∨ out == "y" ∨ out == "z" then
+    (if isTemp src then removeSig (setSig t out s) src else setSig t out s)
+  else if t.any (·.1 == out) then removeSig t out ++ [(out, s)]
+  else t ++ [(out, s)]
+
+/-- The algebraic form of the filter: `track.operate("out = in ! w")`, `track.operate("out = in .* w")` (`".*"` is
+rewritten into `"!"`), and without left-hand side `track.operate("in ! w")`, which returns the values — for two names
+`in`, `w` that are features or coordinates of the track (`[AF operator AF]` case of `Track.__applyOperation`) and an
+output name other than `t`, `timestamp`, `idx`.
+`Track.__evaluate` turns the expression into the RPN `out in w ! =` (`#output in w ! =` without left-hand side);
+`__evaluateRPN` runs `self.operate(Operator.FILTER, in, w, "#0")` (the kernel is the *name* `w`: its values are the
+weights), then the assignment `out = #0`; `Track.operate` finally removes every feature whose name starts with `#`
+(also when the filter fails). Returns the list returned by the call, if any, and the track. -/
+def operateAlgebraic [BEq α] (t : Sigs α) (out : Option String) (afIn kname : String) :
+    Except Err (Option (List (Option α)) × Sigs α) :=
+  match operate t afIn (.feat kname) "#0" with
+  | .error e => .error e
+  | .ok (_, res, t1) =>
+    let lhs := out.getD "#output"
+    let t2 := assignAF t1 lhs "#0" res
+    let ret := match out with
+      | some _ => none
+      | none => getSig t2 "#output"
+    .ok (ret, t2.filter (fun p => !(isTemp p.1)))
+
 /-- the loop `for af in dim` of `filter_seq`; the weight list, if any, is the same Python object
 for every dimension, so it is re-normalised at each call. A coordinate is filtered into the feature
 `temp` and copied back (`setXFromAnalyticalFeature`), any other name is filtered in place. -/
